@@ -28,8 +28,7 @@ theorem good_of_gs {st : State} {R : Nat → Prop} (h : GS st zf zf zf zf R zf z
 
 theorem gs_of_good {st : State} (h : Good st) : GS st zf zf zf zf (fun _ => True) zf zf zf zf := by
   have hl := good_localInv h
-  have hnn := localInv_nonneg h.topo.tree h.params hl
-  refine ⟨h.topo, h.params, h.pods, ?_, ?_, fun m q hq => (hnn m q hq).1, fun m q hq => (hnn m q hq).2⟩
+  refine ⟨h.topo, h.params, h.pods, ?_, ?_, reqInv_nonneg h.topo.tree h.params hl.1, usedInv_nonneg h.topo.tree h.params hl.2⟩
   · intro m q hq
     have := hl.1 m q hq
     simp only [zf, Int.add_zero]
